@@ -51,6 +51,16 @@ pub fn c11(ctx: &mut Ctx) {
         l.headers.push(("x-amz-meta-dup".into(), b"two  words".to_vec()));
         l.signed.push("x-amz-meta-dup".into());
         l.headers.push(("X-Unsigned".into(), b"u1".to_vec()));
+        if rng.chance(1, 4) {
+            // many headers (more than small-slice sorting special cases cover): the values of a repeated signed
+            // header must still be joined in arrival order, wherever the repeated header arrives
+            l.headers.push(("x-amz-meta-dup".into(), b"three".to_vec()));
+            let pads = 28 + rng.below(40);
+            for k in 0..pads {
+                let at = rng.below(l.headers.len() + 1);
+                l.headers.insert(at, (format!("X-Pad-{:02}", (k * 7) % 97), format!("p{}", k).into_bytes()));
+            }
+        }
         // signed names of which one is a proper prefix of the other, continued by a character that sorts
         // below ':' — names are sorted, not "name:value" lines
         let longer = *rng.pick(&["X-Amz-Meta-Dup-1", "x-amz-meta-dup.x", "X-Amz-Meta-Dup0", "x-amz-meta-dup-"]);
@@ -543,7 +553,31 @@ fn build_defective(carrier: &Carrier, mask: u32, rng: &mut Rng) -> (Case, Option
     if has(8) {
         // not a timestamp at all, or one the pattern admits but the calendar / clock does not (seconds 60 and
         // 61, 30 February, hour 24), or a near-miss of the grammar (lower-case designators, a space for 'T')
-        let bad: &str = *rng.pick(&["2015-08-30 12:36", "yesterday", "20150830T123660Z", "20150830T123661Z", "2015-08-30T12:36:60.5Z", "20150230T123600Z", "20150830T240000Z", "2015-08-30t12:36:00z", "2015-08-30 12:36:00Z", "20150830T123600"]);
+        let fixed: &str = *rng.pick(&["2015-08-30 12:36", "yesterday", "20150830T123660Z", "20150830T123661Z", "2015-08-30T12:36:60.5Z", "20150230T123600Z", "20150830T240000Z", "2015-08-30t12:36:00z", "2015-08-30 12:36:00Z", "20150830T123600",
+            // zone fields out of range, junk between the fields, a fraction without zone or without digits
+            "20150830T123600+0075", "2015-08-30T11:21:00-00:75", "20150830T140600+0090", "20150830T123600+2400", "20150830T123600abcZ", "20150830T123600.5", "20150830T123600.Z", "20150830T123600,", "20150830T1236Z", "+20150830T123600Z"]);
+        // half of the time: a random valid rendering with one byte replaced, inserted or removed, as long as the
+        // reference parser refuses the result
+        let mutated: String = {
+            let mut out = String::new();
+            for _ in 0..20 {
+                let style = (*rng.pick(&[0i64, 3600, -1800, 19800]), rng.below(64) as u8, *rng.pick(&[0usize, 0, 2, 9]));
+                let mut b = render_time(1_440_938_160_000_000_000 + rng.range(0, 59) as i128 * 1_000_000_000, style).into_bytes();
+                let pos = rng.below(b.len());
+                match rng.below(3) {
+                    0 => b[pos] = *rng.pick(b"0123456789TZ+-:., zt9"),
+                    1 => b.insert(pos, *rng.pick(b"0123456789TZ+-:., ")),
+                    _ => { b.remove(pos); }
+                }
+                // a leading or trailing space would be forgiven in a header value
+                if rs::ref_parse_iso(&b).is_none() && b.first() != Some(&b' ') && b.last() != Some(&b' ') && !b.is_empty() {
+                    out = String::from_utf8(b).unwrap();
+                    break;
+                }
+            }
+            out
+        };
+        let bad: &str = if rng.chance(1, 2) || mutated.is_empty() { fixed } else { &mutated };
         if is_hdr {
             for (n, v) in c.headers.iter_mut() {
                 if n.eq_ignore_ascii_case("x-amz-date") {
@@ -555,10 +589,28 @@ fn build_defective(carrier: &Carrier, mask: u32, rng: &mut Rng) -> (Case, Option
         }
     }
     if has(6) {
-        if is_hdr {
-            set_auth(&mut c, &|a| a.replace("SignedHeaders=", "SignedHeader="));
-        } else {
-            c.uri = c.uri.replace("X-Amz-SignedHeaders=", "X-Amz-SignedHeader=");
+        // one of the four required inputs of the carrier is missing (its name is misspelt, or the header gone)
+        match rng.below(4) {
+            0 => {
+                if is_hdr { set_auth(&mut c, &|a| a.replace("SignedHeaders=", "SignedHeader=")); } else { c.uri = c.uri.replace("X-Amz-SignedHeaders=", "X-Amz-SignedHeader="); }
+            }
+            1 => {
+                if is_hdr { set_auth(&mut c, &|a| a.replace("Credential=", "Credentials=")); } else { c.uri = c.uri.replace("X-Amz-Credential=", "X-Amz-Credentials="); }
+            }
+            2 => {
+                if is_hdr { set_auth(&mut c, &|a| a.replace("Signature=", "Sig=")); } else { c.uri = c.uri.replace("X-Amz-Signature=", "X-Amz-Sig="); }
+            }
+            _ => {
+                if is_hdr {
+                    c.headers.retain(|(n, _)| !n.eq_ignore_ascii_case("x-amz-date") && !n.eq_ignore_ascii_case("date"));
+                    // a date in the *other* carrier's place does not count
+                    c.uri = format!("{}&X-Amz-Date=20150830T123600Z", c.uri);
+                } else {
+                    c.uri = c.uri.replace("X-Amz-Date=", "X-Amz-Datum=");
+                    c.headers.push(("X-Amz-Date".into(), b"20150830T123600Z".to_vec()));
+                    c.headers.push(("Date".into(), b"20150830T123600Z".to_vec()));
+                }
+            }
         }
     }
     if has(5) && is_hdr {
@@ -951,6 +1003,60 @@ pub fn c14(ctx: &mut Ctx) {
             jobs.push(jb);
         }
     }
+    // a scope date that merely *reads* like the request's day (spaces, missing zero padding, separators), signed
+    // consistently over that scope: out of scope, no key lookup
+    {
+        let t: i128 = 1_440_938_160_000_000_000;
+        let d = "20150830";
+        let forms = [
+            format!("{} {}{}", &d[..4], &d[4..6], &d[6..]), format!("{}{} {}", &d[..4], &d[4..6], &d[6..]), format!("{} {} {}", &d[..4], &d[5..6], &d[6..]),
+            format!("{}\t{}", &d[..4], &d[4..]), format!(" {}", d), format!("{} ", d), format!("{}-{}-{}", &d[..4], &d[4..6], &d[6..]), format!("+{}", d),
+            format!("{}{}{}", &d[..4], &d[5..6], &d[6..]), format!("0{}", d), format!("{}T", d), d.replace('0', "O"),
+        ];
+        for (k, f) in forms.iter().enumerate() {
+            for carrier in [Carrier::Header, Carrier::Query] {
+                let mut l = simple_logical(carrier, t);
+                l.scope_date_override = Some(f.clone());
+                let now = now_for(&l, 0);
+                let s = sign_and_spell(&l, &mut rng, &Spelling::plain(), now);
+                if imp::build_request(&s.case).is_none() {
+                    continue;
+                }
+                let mut c = s.case;
+                c.pending_ready = (k % 2) as u32;
+                let mut jb = job(c, Expect::Refuse(Some("SignatureDoesNotMatch")), "c14-defective", "C14: a request whose scope date is not exactly the YYYYMMDD of its timestamp (though it reads like it) reached the key provider");
+                jb.expect_calls = Some(0);
+                jobs.push(jb);
+            }
+        }
+    }
+    // provider failures in front of signatures made with keys anyone can compute (all-zero key, all-ones key, the
+    // key of the empty secret): the provider's error is the outcome, never acceptance
+    {
+        let t: i128 = 1_440_938_160_000_000_000;
+        let guessable: [Vec<u8>; 3] = [vec![0u8; 32], vec![0xffu8; 32], rs::signing_key(b"", "20150830", "us-east-1", "service")];
+        for (k, key) in guessable.iter().enumerate() {
+            for carrier in [Carrier::Header, Carrier::Query] {
+                for behaviour in 0..4 {
+                    let mut l = simple_logical(carrier.clone(), t);
+                    l.raw_key = Some(key.clone());
+                    let now = now_for(&l, 0);
+                    let s = sign_and_spell(&l, &mut rng, &Spelling::plain(), now);
+                    let mut c = s.case;
+                    let (expect, calls) = match behaviour {
+                        0 => { c.answer = Answer::Err(ProvErr::Sig("InvalidClientTokenId")); ("InvalidClientTokenId", 1) }
+                        1 => { c.answer = Answer::Err(ProvErr::Foreign); ("InternalServiceError", 1) }
+                        2 => { c.ready_err = Some(ProvErr::Sig("ExpiredToken")); ("ExpiredToken", 0) }
+                        _ => { c.ready_err = Some(ProvErr::Foreign); ("InternalServiceError", 0) }
+                    };
+                    c.pending_answer = (k % 2) as u32;
+                    let mut jb = job(c, Expect::Refuse(Some(expect)), "c14-behaviour", "C14: a provider failure ended in acceptance (or another outcome than the provider's error) for a signature made with a key anyone can compute");
+                    jb.expect_calls = Some(calls);
+                    jobs.push(jb);
+                }
+            }
+        }
+    }
     // every short add/remove history of the growable requirements container over one header name (declared in
     // varying letter case): whatever the history, a request that leaves a header unsigned which the resulting
     // container covers must not reach the provider, and one it does not cover must be accepted
@@ -974,10 +1080,25 @@ pub fn c14(ctx: &mut Ctx) {
                 }
             }
         }
+        // the same histories with the container *used* (a validation) between two modifications
+        let mut used: Vec<Vec<(char, String)>> = Vec::new();
+        for h in hist.iter().filter(|h| h.len() >= 2) {
+            for at in 1..h.len() {
+                if (h.len() + at + used.len()) % 2 == 0 || ctx.thorough {
+                    let mut x = h.clone();
+                    x.insert(at, ('V', String::new()));
+                    used.push(x);
+                }
+            }
+        }
+        hist.extend(used);
         for (k, ops) in hist.into_iter().enumerate() {
             // reference semantics of the container
             let (mut a2, mut i2, mut p2): (Vec<String>, Vec<String>, Vec<String>) = (vec![], vec![], vec![]);
             for (code, name) in &ops {
+                if *code == 'V' {
+                    continue;
+                }
                 let list = match code { 'A' | 'a' => &mut a2, 'I' | 'i' => &mut i2, _ => &mut p2 };
                 if code.is_ascii_uppercase() {
                     if !list.iter().any(|x| *x == name.to_ascii_lowercase()) {
